@@ -1,0 +1,13 @@
+//go:build verif
+
+package parser
+
+// Contracts for the goverif VC generator (/verif). Comment-only file: it adds no code.
+
+// ---- C34: a command is unsafe unless it is on the safe list ------------------------------------------
+//@ func isCmdUnsafe [C34 C19]
+//@   modifies nothing
+//@   inst rangeindex
+//@   loop 1 invariant forall(k, 0, $idx+1, safeCmds[k] != f)
+//@   ensures imp(result, forall(k, 0, len(safeCmds), safeCmds[k] != f))
+//@   ensures imp(!result, exists(k, 0, len(safeCmds), safeCmds[k] == f))
